@@ -150,7 +150,10 @@ attributes colliding with the library's string literals, caller-owned option tab
 property-backed title fields, vertex classes with their own `__str__`; from round 8: falsy edge classes, per-call unhashable
 filters, half-assigned links losing their unset end, constructors that normalise their arguments in place, format-spec features in
 titles, and two oracle clauses that had been left to the tie (start-vertex membership for traversals and searches; "every
-assignment succeeds" for law sets).
+assignment succeeds" for law sets); from round 9: plain-data containers shared between attributes and between vertices of a pickled
+graph (contents AND sharing pattern compared), vertices that become value-equal after the graph is built (exporters must name by
+identity), metaclasses derived from a generated semi-singleton metaclass, callbacks that raise `StopIteration` (which iteration
+machinery swallows) and the repeat of a faulted call with the very same callback object.
 """
 s = (V / "DESIGN.md").read_text()
 a = s.index("### 12.5 Seeded changes")
